@@ -59,6 +59,17 @@ class Reset(Contract):
 REG.transparent('lomond.utf8validator.Utf8Validator.__init__')
 
 
+def validate_roles():
+    """(index, length, running state) of Utf8Validator.validate by role: the loop test compares index < length,
+    the running state is the local initialised from self._state"""
+    from pyvc.source import Roles
+    r = Roles(Utf8Validator.validate)
+    names = r.while_test_names(0)
+    if len(names) != 2:
+        r._fail('index and length of the scan loop')
+    return names[0], names[1], r.assigned_from('self._state')
+
+
 @contract('lomond.utf8validator.Utf8Validator.validate', serves=['C05', 'C02', 'C04'])
 class Validate(Contract):
     """valid == the table DFA, run over `ba` from the state left by earlier chunks, never reaches
@@ -90,7 +101,7 @@ class Validate(Contract):
 
         def inv(ip):
             a, old = ip.args, ip.old
-            i, l, state = (ip.env.vars[x] for x in ('i', 'l', 'state'))
+            i, l, state = (ip.env.vars[x] for x in validate_roles())
             arr = a.ba.as_array()
             s0 = iv(old.get(a.self, '_state'))
             for f in run_axioms(ip, arr, s0, iv(i)):
@@ -101,7 +112,7 @@ class Validate(Contract):
                     ('no-reject-after-first-byte', Implies(iv(i) > 0, iv(state) != REJECT)),
                     ('fields-untouched', And(iv(ip.st.get(a.self, '_state')) == s0,
                                              iv(ip.st.get(a.self, '_index')) == iv(old.get(a.self, '_index'))))]
-        return LoopSpec(inv=inv, decreases=lambda ip: iv(ip.env.vars['l']) - iv(ip.env.vars['i']))
+        return LoopSpec(inv=inv, decreases=lambda ip: iv(ip.env.vars[validate_roles()[1]]) - iv(ip.env.vars[validate_roles()[0]]))
 
     def ensures(self, ip, a, old, res):
         st = ip.st
